@@ -295,9 +295,12 @@ class ApplyROI(Command):
             if group not in self.old_groups:
                 self.data_collection.remove_subset_group(group)
 
+        # Remove any other subsets that were created - but not those that
+        # datasets added in the meantime have for the remaining subset groups
         for data in self.data_collection:
             for subset in data.subsets:
-                if subset not in self.old_states:
+                if (subset not in self.old_states and
+                        getattr(subset, 'group', None) not in self.data_collection.subset_groups):
                     subset.delete()
 
         for k, v in self.old_states.items():
@@ -346,9 +349,12 @@ class ApplySubsetState(Command):
             if group not in self.old_groups:
                 self.data_collection.remove_subset_group(group)
 
+        # Remove any other subsets that were created - but not those that
+        # datasets added in the meantime have for the remaining subset groups
         for data in self.data_collection:
             for subset in data.subsets:
-                if subset not in self.old_states:
+                if (subset not in self.old_states and
+                        getattr(subset, 'group', None) not in self.data_collection.subset_groups):
                     subset.delete()
 
         for k, v in self.old_states.items():
